@@ -408,7 +408,7 @@ PRE_THOROUGH = PRE + [[5], [5, 2]]
 
 def run_c12(tier, seed, verdict, cov):
     d = fresh_dir('c12-%d' % os.getpid())
-    npos = 120 if tier == 'quick' else 4000
+    npos = 120 if tier == 'quick' else 1500
     gparts = max(1, min(NCPU - 2, 12))
 
     def gen(i):
@@ -427,7 +427,9 @@ def run_c12(tier, seed, verdict, cov):
         if tier == 'quick':
             plan = QUICK
         else:
-            plan = [(pre, depth) for pre in PRE_THOROUGH for depth in (3, 4) if not (pre == [3] and depth != 3)]
+            plan = [(pre, depth) for pre in PRE for depth in (3, 4) if not (pre == [3] and depth != 3)]
+            if len(cases) % 5 == 0:
+                plan += [([5], 3), ([5, 2], 4)]      # on top of a completed depth-5 search (costly: every fifth position)
         for pre, depth in plan:
             cases.append({'id': len(cases), 'fen': f, 'pre': pre, 'depth': depth})
     parts = max(1, min(NCPU - 2, 12))
